@@ -647,3 +647,170 @@ Theorem C08_concrete_lossless_refuted :
                   codec_decode k Dammit.Strict b = Some d /\ SQ.read_text d <> t.
 Proof. exact concrete_lossless_refuted. Qed.
 Print Assumptions C08_concrete_lossless_refuted.
+
+(* ======================================================================================================
+   The last sentence of the property, end to end on the concrete model: "... so for ASCII-compatible encodings ...
+   re-parsing the bytes auto-detects that encoding."  Tag.encode as modelled (Model/Encode.v, with the concrete
+   encoders of Model/Codecs.v) composed with UnicodeDammit as modelled (Model/Dammit.v with the modelled declaration
+   sniffer Model/Sniff.v and the concrete decoders): c_tag_encode, then c_dammit. Targets: the names in
+   [encoder_names] (14 spellings of ascii / iso-8859-1 / windows-1252 / utf-8 on which codecs.lookup and the model
+   agree). meta_tag MCharset e = <meta charset="e"/>, meta_tag MContent e = <meta content="text/html; charset=e"
+   http-equiv="Content-Type"/> — what _format_tag writes for a <meta> created through the builder.
+   [detect_conditions st e bpre bpost] are the side conditions, all about the encoded bytes b = bpre ++ tag ++ bpost:
+     no byte-order mark is recognised; the declaration, through the character closing the name, lies within the first
+     max(2048, len(b) / 20) bytes — the search window of find_declared_encoding, as the code has it; the first 1024
+     bytes are not an XML declaration naming an encoding; nothing earlier in the searched part matches the html pattern.
+   Each of them is needed: C08_autodetect_declared_refuted_* (all four reproduce on the real library).
+   ====================================================================================================== *)
+From BS Require Import Spec.SniffSpec Model.Sniff Model.Autodetect Proofs.AutodetectProofs.
+From BS Require Proofs.DammitProofs.
+
+(* any tree, any split of its events around the <meta> element, both formatters, any exclusion list not naming e *)
+Theorem C08_autodetect_declared : forall st e k f t evs1 h evs2 bpre bpost a,
+  In (e, k) encoder_names ->
+  events_self t = evs1 ++ EvEmpty h :: evs2 ->
+  format_tag (Some e) f h true true = meta_tag st e ->
+  codec_encode k EXmlCharRef (flat_map (piece (Some e) f) evs1) = Some bpre ->
+  codec_encode k EXmlCharRef (flat_map (piece (Some e) f) evs2) = Some bpost ->
+  detect_conditions st e bpre bpost ->
+  Dammit.a_known a = [] -> Dammit.a_override a = [] -> Dammit.a_user a = [] -> Dammit.a_is_html a = true ->
+  DammitSpec.excluded lower_ascii (Dammit.a_exclude a) e = false ->
+  let b := bpre ++ meta_tag st e ++ bpost in
+  c_tag_encode 0 e None f XmlCharRef t = Some (Some b) /\
+  DammitProofs.outcome (c_dammit (Dammit.MBytes b) a) =
+    (Some (xcr_text (codec_enc_char k) (tag_decode None (Some e) f t)), Some e, false) /\
+  Dammit.r_declared_html (c_dammit (Dammit.MBytes b) a) = Some e.
+Proof. exact autodetect_declared_tree. Qed.
+Print Assumptions C08_autodetect_declared.
+
+(* the same for any rendering (any str) that contains the tag *)
+Theorem C08_autodetect_declared_rendering : forall st e k pre post bpre bpost a,
+  In (e, k) encoder_names ->
+  codec_encode k EXmlCharRef pre = Some bpre -> codec_encode k EXmlCharRef post = Some bpost ->
+  detect_conditions st e bpre bpost ->
+  Dammit.a_known a = [] -> Dammit.a_override a = [] -> Dammit.a_user a = [] -> Dammit.a_is_html a = true ->
+  DammitSpec.excluded lower_ascii (Dammit.a_exclude a) e = false ->
+  let s := pre ++ meta_tag st e ++ post in
+  let b := bpre ++ meta_tag st e ++ bpost in
+  codec_encode k EXmlCharRef s = Some b /\
+  DammitProofs.outcome (c_dammit (Dammit.MBytes b) a) = (Some (xcr_text (codec_enc_char k) s), Some e, false) /\
+  Dammit.r_declared_html (c_dammit (Dammit.MBytes b) a) = Some e.
+Proof. exact autodetect_declared_str. Qed.
+Print Assumptions C08_autodetect_declared_rendering.
+
+(* the tags are the model's rendering of a <meta> created through the builder (set_up_substitutions installed the
+   placeholder), for every modelled name, both formatters, every non-empty original charset value / the listed
+   original content values *)
+Theorem C08_meta_tag_renderings : forall e k f, In (e, k) encoder_names ->
+  (forall c old, format_tag (Some e) f
+      (mkhead s_meta None (set_up_substitutions s_meta [(s_charset, AStr (c :: old))]) true false) true true
+    = meta_tag MCharset e) /\
+  forallb (fun old =>
+    str_eqb (format_tag (Some e) f
+               (mkhead s_meta None
+                  (set_up_substitutions s_meta [(s_http_equiv, AStr s_ct_value); (s_content, AStr (content_value old))])
+                  true false) true true)
+            (meta_tag MContent e))
+    [[107; 111; 105; 56; 45; 114]; [120; 45; 115; 106; 105; 115]; [73; 83; 79; 45; 56; 56; 53; 57; 45; 49];
+     [117; 116; 102; 45; 56]] = true.
+Proof. exact (fun e k f H => conj (fun c old => charset_tag_rendering e k f c old H) (content_tag_rendering e k f H)). Qed.
+Print Assumptions C08_meta_tag_renderings.
+
+(* the names, and what the search window is *)
+Theorem C08_autodetect_names_and_window :
+  map fst encoder_names =
+  [[108; 97; 116; 105; 110; 45; 49]; [108; 97; 116; 105; 110; 49]; [108; 97; 116; 105; 110; 95; 49];
+   [105; 115; 111; 45; 56; 56; 53; 57; 45; 49]; [105; 115; 111; 95; 56; 56; 53; 57; 95; 49]; [99; 112; 49; 50; 53; 50];
+   [119; 105; 110; 100; 111; 119; 115; 45; 49; 50; 53; 50]; [119; 105; 110; 100; 111; 119; 115; 95; 49; 50; 53; 50];
+   [97; 115; 99; 105; 105]; [117; 115; 45; 97; 115; 99; 105; 105]; [117; 115; 95; 97; 115; 99; 105; 105];
+   [117; 116; 102; 45; 56]; [117; 116; 102; 56]; [117; 116; 102; 95; 56]] /\
+  (forall n : nat, html_window n = Nat.max 2048%nat (Nat.div n 20%nat)) /\
+  (forall s, searched_html false s = firstn (html_window (List.length s)) s) /\
+  (forall s, searched_xml false s = firstn 1024 s).
+Proof. exact (conj encoder_names_are (conj (fun n => eq_refl) (conj (fun s => eq_refl) (fun s => eq_refl)))). Qed.
+Print Assumptions C08_autodetect_names_and_window.
+
+(* the side conditions in decidable form (what the extracted model evaluates on generated documents, command 21010),
+   and a sufficient condition for the first one *)
+Theorem C08_autodetect_conditions_decidable : forall st e bpre bpost,
+  detect_conditions_b st e bpre bpost = true -> detect_conditions st e bpre bpost.
+Proof. exact detect_conditions_b_sound. Qed.
+Print Assumptions C08_autodetect_conditions_decidable.
+
+Theorem C08_no_mark_when_ascii_start : forall c r, 0 < c < 128 -> Dammit.strip_bom (c :: r) = (c :: r, None).
+Proof. exact no_bom_ascii_start. Qed.
+Print Assumptions C08_no_mark_when_ascii_start.
+
+(* the hypotheses are satisfiable: <html><head><title>é☃</title> + the content-style tag + </head><body>..., latin-1 *)
+Example C08_autodetect_declared_satisfiable :
+  detect_conditions MContent n_latin1
+    (match codec_encode Latin1 EXmlCharRef ex_pre with Some x => x | None => [] end)
+    (match codec_encode Latin1 EXmlCharRef ex_post with Some x => x | None => [] end) /\
+  In (n_latin1, Latin1) encoder_names /\
+  DammitProofs.outcome (c_dammit (Dammit.MBytes (match codec_encode Latin1 EXmlCharRef (ex_pre ++ meta_tag MContent n_latin1 ++ ex_post)
+                             with Some x => x | None => [] end)) no_args)
+  = (Some (xcr_text (codec_enc_char Latin1) (ex_pre ++ meta_tag MContent n_latin1 ++ ex_post)), Some n_latin1, false).
+Proof. exact autodetect_satisfiable. Qed.
+
+(* ---- without the side conditions the statement is false; [wrongly_detected k e s d]: s encoded in k is re-detected
+        as d <> e and decoded to a text other than the rendering ---- *)
+(* rendering that starts with the text "ÿþ", target iso-8859-1: FF FE is taken for a UTF-16LE mark *)
+Theorem C08_autodetect_declared_refuted_mark_lookalike :
+  In (n_latin1, Latin1) encoder_names /\
+  wrongly_detected Latin1 n_latin1 ([255; 254] ++ meta_tag MCharset n_latin1 ++ [60; 112; 62; 99; 97; 102; 233; 60; 47; 112; 62])
+                   DammitSpec.n_utf16le.
+Proof. exact autodetect_refuted_bom_lookalike. Qed.
+Print Assumptions C08_autodetect_declared_refuted_mark_lookalike.
+
+(* a processing instruction <?xml version="1.0" encoding="latin-1"?> in front of the rewritten <meta>, target utf-8:
+   the instruction is not rewritten and the XML pattern is searched first *)
+Theorem C08_autodetect_declared_refuted_stale_xml_declaration :
+  In (n_utf8', Utf8) encoder_names /\
+  exists pre post, wrongly_detected Utf8 n_utf8' (pre ++ meta_tag MCharset n_utf8' ++ post) n_latin1.
+Proof. exact autodetect_refuted_stale_xml_declaration_ex. Qed.
+Print Assumptions C08_autodetect_declared_refuted_stale_xml_declaration.
+
+(* a comment <!-- <meta charset="latin-1"> --> in front, target utf-8 *)
+Theorem C08_autodetect_declared_refuted_declaration_in_comment :
+  exists pre post, wrongly_detected Utf8 n_utf8' (pre ++ meta_tag MCharset n_utf8' ++ post) n_latin1.
+Proof. exact autodetect_refuted_declaration_in_comment_ex. Qed.
+Print Assumptions C08_autodetect_declared_refuted_declaration_in_comment.
+
+(* <meta charset="utf-8" x="charset=latin-1"/>: inside one tag the RIGHTMOST charset is reported *)
+Theorem C08_autodetect_declared_refuted_later_charset_in_tag :
+  exists rest, wrongly_detected Utf8 n_utf8' (tag_head MCharset n_utf8' ++ rest) n_latin1.
+Proof. exact autodetect_refuted_later_charset_in_tag_ex. Qed.
+Print Assumptions C08_autodetect_declared_refuted_later_charset_in_tag.
+
+(* ---- "... (and those written with a byte-order mark)": encode("utf-16") / encode("utf-32") = the mark the
+        interpreter writes (Gen/T_Codecs.v) + the little-endian form, encoders defined in Model/Codecs.v ---- *)
+(* round trips, every string: the strict UTF-16 / UTF-32 decoders of Model/Codecs.v invert the encoders (both byte orders) *)
+Theorem C08_wide_decode_encode : forall le u b,
+  (enc_strict (utf16_enc_char le) u = Some b -> utf16_decode le false b = Some u) /\
+  (enc_strict (utf32_enc_char le) u = Some b -> utf32_decode le false b = Some u).
+Proof. exact (fun le u b => conj (utf16_decode_encode le u b) (utf32_decode_encode le u b)). Qed.
+Print Assumptions C08_wide_decode_encode.
+
+Theorem C08_wide_marks : cd_utf16_bom = [255; 254] /\ cd_utf32_bom = [255; 254; 0; 0].
+Proof. split; reflexivity. Qed.
+Print Assumptions C08_wide_marks.
+
+(* the bytes given back to UnicodeDammit: the mark decides, whatever the document declares — for EVERY non-empty
+   string (unencodable lone surrogates become references first), any user encodings / exclusions not naming it.
+   Side condition actually needed: for UTF-16 the first character is not U+0000 (FF FE 00 00 is the UTF-32LE mark). *)
+Theorem C08_autodetect_bom : forall w c0 s a,
+  (w = W16 -> c0 <> 0) ->
+  Dammit.a_known a = [] -> Dammit.a_override a = [] ->
+  DammitSpec.excluded lower_ascii (Dammit.a_exclude a) (wide_name w) = false ->
+  exists b, wide_encode w (c0 :: s) = Some b /\
+    DammitProofs.outcome (c_dammit (Dammit.MBytes b) a) =
+      (Some (xcr_text (wide_enc_char w) (c0 :: s)), Some (wide_name w), false).
+Proof. exact autodetect_bom. Qed.
+Print Assumptions C08_autodetect_bom.
+
+(* and that condition is needed: U+0000 first, UTF-16 -> the bytes FF FE 00 00 ... are taken for UTF-32LE *)
+Theorem C08_autodetect_bom_refuted_nul_first :
+  exists b, wide_encode W16 [0; 97] = Some b /\
+    DammitProofs.outcome (c_dammit (Dammit.MBytes b) no_args) <> (Some [0; 97], Some (wide_name W16), false).
+Proof. eexists. split; [vm_compute; reflexivity|vm_compute; discriminate]. Qed.
+Print Assumptions C08_autodetect_bom_refuted_nul_first.
